@@ -54,6 +54,8 @@ def parseLine (line : String) : Line :=
   -- `ri m`: harness-only switch (callbacks re-register / change user data from inside the callback, C15 twin runs);
   -- the model has no re-entrant callbacks, so for the model it is an observer op
   | ["ri", _] => .mop (.op .getters)
+  -- `qo m`: harness-only switch (print the order in which the callbacks of a call ran; twin runs)
+  | ["qo", _] => .mop (.op .getters)
   | ["p", a, b, c, d, ea, eb, ec, ed] =>
     match n? a, n? b, n? c, n? d, n? ea, n? eb, n? ec, n? ed with
     | some a, some b, some c, some d, some ea, some eb, some ec, some ed =>
